@@ -104,9 +104,10 @@ func (l *c14Log) history(vm, uuid string, max int) string {
 // ---------------------------------------------------------------- run configuration (the "input" of a case)
 
 type c14Action struct {
-	Kind   string `json:"kind"`   // cancel | prio0 | requeue | hold | drain | restart | add
-	Victim int    `json:"victim"` // container index (cancel/prio0/requeue)
-	At     int    `json:"at"`     // fires when this many crunch-run starts have been observed (hold/drain/restart/add)
+	Kind   string `json:"kind"`        // cancel | prio0 | requeue | hold | drain | restart | add
+	Victim int    `json:"victim"`      // container index (cancel/prio0/requeue)
+	At     int    `json:"at"`          // fires when this many crunch-run starts have been observed (hold/drain/restart/add)
+	N      int    `json:"n,omitempty"` // add: number of containers (0 = cfg.LateAdd)
 }
 
 type c14RunCfg struct {
@@ -243,11 +244,12 @@ func c14GenCfg(rng *verifkit.Rand, thorough bool) c14RunCfg {
 // is processed after "--detach" has returned.
 func c14SlowSSHCfg(rng *verifkit.Rand) c14RunCfg {
 	cfg := c14RunCfg{Types: rng.Range(1, 2), K: 3000, KFault: 2500, WatchdogSecs: 150, PollMs: 5, SlowSSHPct: 100}
-	cfg.Containers = rng.PickInt(50, 70)
+	// containers arrive in small waves, so that few instances exist at a
+	// time, each is used again and again, and each is probed every few ms
+	cfg.Containers = rng.Range(6, 10)
 	cfg.Seed = rng.Uint64()
-	perm := rng.Perm(cfg.Containers)
-	for i := 0; i < 4; i++ {
-		cfg.Actions = append(cfg.Actions, c14Action{Kind: rng.PickStr("cancel", "prio0"), Victim: perm[i]})
+	for k := 1; k <= rng.Range(12, 16); k++ {
+		cfg.Actions = append(cfg.Actions, c14Action{Kind: "add", At: 4 * k, N: 4})
 	}
 	return cfg
 }
@@ -284,7 +286,8 @@ type c14XDetach struct {
 type c14SCall struct {
 	gen    int
 	uuid   string
-	tc     int64
+	tc     int64 // call began
+	tr     int64 // call returned
 	ok     bool
 	linked bool
 }
@@ -980,7 +983,7 @@ func (p *c14EPool) StartContainer(it arvados.InstanceType, ctr arvados.Container
 		}
 	}
 	sc.ok = p.inner.StartContainer(it, ctr)
-	w.log.add(c14Event{Kind: "p-start-ret", Gen: g.n, UUID: ctr.UUID, OK: sc.ok})
+	sc.tr = w.log.add(c14Event{Kind: "p-start-ret", Gen: g.n, UUID: ctr.UUID, OK: sc.ok})
 	w.mu.Lock()
 	w.scalls = append(w.scalls, sc)
 	w.mu.Unlock()
